@@ -50,7 +50,7 @@ m = {
     }],
     "checks": checks,
     "not_applicable": na,
-    "notes": "Runtime monitoring only: every verdict is an oracle observing executions of the real library built from /repo's working tree. Known findings: /verif/known_findings.json. Seeded changes used to validate the monitors: /verif/seeded/ (400, ten rounds); behaviour-preserving controls on which every check stays silent: /verif/benign/ (42).",
+    "notes": "Runtime monitoring only: every verdict is an oracle observing executions of the real library built from /repo's working tree. Known findings: /verif/known_findings.json. Seeded changes used to validate the monitors: /verif/seeded/ (438, eleven rounds); behaviour-preserving controls on which every check stays silent: /verif/benign/ (42).",
 }
 json.dump(m, open(os.path.join(os.path.dirname(__file__), "MANIFEST.json"), "w"), indent=1)
 print("MANIFEST.json:", len(checks), "checks,", len(na), "not applicable")
